@@ -10,3 +10,19 @@ claim("C13", CORE_TEXT + "C13: the k-th backend call (and the n-th call of each 
 claim("C14", CORE_TEXT + "C14: ABOR at every step position, while the j-th backend call is in flight, and at event-loop-iteration "
       "granularity around start and end of each transfer kind, followed by further commands and a second transfer.",
       "TLA+ trace validation with schedule enumeration (gates, loop-iteration offsets)")
+claim("C03", CORE_TEXT + "C03: all command histories of length <= 2 and seeded ones up to 6 over 29 command kinds (every login variant "
+      "interleaved with every guarded verb, transfers with a data connection), on user tables with and without an anonymous entry; "
+      "the specification admits a backend call, listener, worker, cwd or tree change only for a logged-in session.",
+      "TLA+ trace validation (TLC) of exhaustive/seeded command histories + TLC model check of MC_Seq")
+claim("C10", CORE_TEXT + "C10: seeded interleavings of connect/USER/PASS/QUIT/vanish/garbage/idle timeout/server.close() over 4 sessions "
+      "with server-wide and per-user limits, and every prefix of long schedules followed by server.close(); counters compared with the "
+      "model (conservation equalities are TLC invariants of MC_Res).", "TLA+ trace validation with cut-at-every-event + TLC invariants (MC_Res)")
+claim("C11", CORE_TEXT + "C11: PASV/EPSV schedules over 3 sessions x pool sizes 0..3 x per-port fault plans x cancellation held at both "
+      "gates of the listener start-up; pool and listeners compared with the model at every quiescent instant (port conservation is a TLC "
+      "invariant of MC_Res).", "TLA+ trace validation with fault plans and gated listener start-up + TLC invariants (MC_Res)")
+claim("C16", CORE_TEXT + "C16: stalls inserted at every position of the corpus scripts and stalled data connections under combinations of "
+      "idle / wait / socket timeouts in virtual time; the model admits a timeout action only at its exact deadline and rejects an overdue one.",
+      "TLA+ trace validation with exact virtual timestamps + TLC model check (MC_Timed)")
+claim("C17", CORE_TEXT + "C17: 2-3 sessions on disjoint subtrees under a seeded scheduler that holds and releases backend calls; the "
+      "interleaved execution must be a behaviour of the multi-session model and each session's transcript must equal its solo run; "
+      "non-interference action properties are checked by TLC on MC_Iso.", "TLA+ trace validation of interleavings + solo differential + TLC action properties (MC_Iso)")
